@@ -44,6 +44,13 @@ def execute(ctx, bt, kind, cdata):
     try:
         K.EXEC[kind](bt, c)
     except Exception as e:  # never on the unchanged tree: the real code left something the executor cannot digest
+        from ..weigh_lib import FixtureIllFormed
+        if isinstance(e, FixtureIllFormed):
+            c.requests = []
+            c.tags.append("fixture-zero-base-skipped")
+            for t in c.tags:
+                ctx.count(kind + ":" + t)
+            return c
         import traceback
         c.requests = []
         c.violations.append(("C15/%s-unexpected-exception:%s" % (kind, type(e).__name__),
